@@ -310,6 +310,17 @@ func (g *Generator) liveStakes() []*MStake {
 	return out
 }
 
+func (g *Generator) holdsGenesisStake(a Addr) bool {
+	if d := g.w.M.Delegs[a]; d != nil {
+		for _, s := range d.Stakes {
+			if s.ID == zeroHashHex {
+				return true
+			}
+		}
+	}
+	return false
+}
+
 func (g *Generator) genesisUnbonding() int {
 	n := 0
 	for _, s := range g.w.M.Frozen {
@@ -612,6 +623,9 @@ func (g *Generator) NextBlock(h int64) BlockStep {
 	n := vals.Size()
 	// absences / outages (the commit keeps > 2/3 power; enforced at execution)
 	for i := 0; i < n; i++ {
+		if c.AvoidKnown && g.genesisUnbonding() >= 1 && g.holdsGenesisStake(ToAddr(vals.Validators[i].Address)) {
+			continue
+		}
 		if g.outage[i] > 0 {
 			g.outage[i]--
 			st.Absent = append(st.Absent, i)
